@@ -49,8 +49,8 @@ type Marshallable interface {
 // is mildly discouraged.
 func ConvertToParagraph(incoming interface{}) (*Paragraph, error) {
 	data := reflect.ValueOf(incoming)
-	if data.Type().Kind() != reflect.Ptr {
-		return nil, fmt.Errorf("Can only Decode a pointer to a Struct")
+	if !data.IsValid() || data.Type().Kind() != reflect.Ptr || data.IsNil() {
+		return nil, fmt.Errorf("Can only Decode a (non-nil) pointer to a Struct")
 	}
 	return convertToParagraph(data.Elem())
 }
@@ -293,7 +293,13 @@ func (e *Encoder) Encode(incoming interface{}) error {
 // Top-level Encode reflect dispatch {{{
 
 func (e *Encoder) encode(data reflect.Value) error {
+	if !data.IsValid() {
+		return fmt.Errorf("Can't Encode nil")
+	}
 	if data.Type().Kind() == reflect.Ptr {
+		if data.IsNil() {
+			return fmt.Errorf("Can't Encode a nil pointer")
+		}
 		return e.encode(data.Elem())
 	}
 
